@@ -180,8 +180,9 @@ fn slice_check<V: Copy, T: Fbits, const N: usize>(
                             if len >= N {
                                 return Err(mk(format!("panicked on a slice of sufficient length {len} >= {N}: {m}")));
                             }
-                            if (0..len).any(|i| buf[g + i].tb() != T::CANARY) {
-                                t.class("partial_prefix_writes");
+                            // "raised before any memory is touched": the short destination must still hold the canary everywhere
+                            if let Some(i) = (0..len).find(|&i| buf[g + i].tb() != T::CANARY) {
+                                return Err(mk(format!("the slice of length {len} < {N} was partially overwritten (element {i}) before the documented panic was raised")));
                             }
                         }
                         Ok(()) => {
@@ -208,6 +209,9 @@ fn slice_check<V: Copy, T: Fbits, const N: usize>(
                         Err(m) => {
                             if len >= N {
                                 return Err(mk(format!("panicked on a slice of sufficient length {len} >= {N}: {m}")));
+                            }
+                            if let Some(i) = (0..len).find(|&i| b[i].tb() != T::CANARY) {
+                                return Err(mk(format!("the slice of length {len} < {N} was partially overwritten (element {i}) before the documented panic was raised")));
                             }
                         }
                         Ok(()) => {
